@@ -107,7 +107,7 @@ def run(tier):
             raise common.MachineryError("CExpr exported nothing for " + label)
         if sample and len(exports) > sample:
             exports = rnd.sample(exports, sample)
-        for e in exports[:2]:
+        for e in exports[len(exports) // 2: len(exports) // 2 + 2]:
             ctx.sample(dict(tokens=" ".join(e["toks"]), expected=strip(e["ast"]), mode=e["mode"]))
         replay_population(ctx, exports, label)
     # random deeper trees
